@@ -147,13 +147,16 @@ def camp_coef(ctx):
 # (b) histories
 # ---------------------------------------------------------------------------------------------
 
-BASE_CASES = ['kundur/kundur_full.xlsx', 'ieee14/ieee14_full.xlsx', '5bus/pjm5bus.xlsx', 'wscc9/wscc9.xlsx']
+BASE_CASES = ['kundur/kundur_full.xlsx', 'ieee14/ieee14_full.xlsx', '5bus/pjm5bus.xlsx', 'wscc9/wscc9.xlsx', 'ieee14/ieee14_solar.xlsx',
+              'ieee14/ieee14_regcp1.xlsx']
 # (model, param, needs_pflow_before) : static parameters must be altered before the power flow to have a clean twin
 ALTERABLE = [('PQ', 'p0', 'pre'), ('PQ', 'q0', 'pre'), ('Line', 'x', 'pre'), ('Line', 'b', 'pre'), ('Shunt', 'b', 'pre'),
              ('PV', 'p0', 'pre'), ('PV', 'v0', 'pre'),
              ('GENROU', 'M', 'any'), ('GENROU', 'D', 'any'), ('GENROU', 'xd', 'prepost'), ('GENCLS', 'M', 'any'),
              ('GENCLS', 'D', 'any'), ('TGOV1', 'T1', 'any'), ('TGOV1', 'R', 'prepost'), ('EXDC2', 'TA', 'any'),
-             ('EXDC2', 'KA', 'prepost'), ('EXST1', 'TA', 'any'), ('ESST3A', 'TA', 'any'), ('IEEEG1', 'T1', 'any')]
+             ('EXDC2', 'KA', 'prepost'), ('EXST1', 'TA', 'any'), ('ESST3A', 'TA', 'any'), ('IEEEG1', 'T1', 'any'),
+             # time constants shared by several states of one device
+             ('REGCA1', 'Tg', 'any'), ('REPCA1', 'Tfltr', 'any'), ('REGCP1', 'Tg', 'any'), ('REGCA1', 'Tg', 'any'), ('REPCA1', 'Tfltr', 'any')]
 
 
 @st.composite
